@@ -142,6 +142,46 @@ def is_instance_of(obj, cls):
     return isinstance(obj, UserInstance) and cls in object.__getattribute__(obj, "__dict__")["_uc_class"]._uc_mro()
 
 
+class SuperProxy(Model):
+    """`super()` inside a method of a class defined by the evaluated code: attribute look-up continues after the defining class
+    in the method resolution order of the object's class; a base class the evaluated code does not define (object, ABC, a library
+    class) contributes a no-op `__init__` only."""
+
+    _allow_private = True
+
+    def __init__(self, defining, obj):
+        d = object.__getattribute__(self, "__dict__")
+        d["_sp_defining"], d["_sp_obj"] = defining, obj
+
+    def __getattr__(self, name):
+        d = object.__getattribute__(self, "__dict__")
+        defining, obj = d["_sp_defining"], d["_sp_obj"]
+        cls = obj if isinstance(obj, UserClass) else object.__getattribute__(obj, "__dict__")["_uc_class"]
+        mro = cls._uc_mro()
+        rest = mro[mro.index(defining) + 1:] if defining in mro else []
+        for c in rest:
+            if name in c._uc_ns:
+                v = c._uc_ns[name]
+                if isinstance(v, _Method):
+                    if v.kind == "static":
+                        return v.clo
+                    if v.kind == "class":
+                        return lambda *a, **k: v.clo(cls, *a, **k)
+                    if v.kind == "property":
+                        return v.clo(obj)
+                    return lambda *a, **k: v.clo(obj, *a, **k)
+                return v
+        if name in ("__init__", "__init_subclass__", "__post_init__", "__set_name__"):
+            return lambda *a, **k: None
+        if name == "__repr__":
+            return lambda: repr(obj)
+        if name == "__eq__":
+            return lambda other: obj is other
+        if name == "__hash__":
+            return lambda: id(obj)
+        raise Unsupported(f"super().{name} reaches a base class the evaluated code does not define")
+
+
 class UserInstance(Model):
     _allow_private = True
     _serial = 0
@@ -444,10 +484,28 @@ def build_class(cdef, interp):
         raise Unsupported(f"statement in class body of {cdef.name}: {ast.unparse(st)[:60]}")
     ns.pop("__slots__", None)
     if kind.startswith("enum:"):
-        return build_enum(cdef.name, kind.split(":")[1], ns, bases)
+        cls = build_enum(cdef.name, kind.split(":")[1], ns, bases)
+        _set_defining_class(ns, cls)
+        return cls
     if "__getattr__" in ns or "__getattribute__" in ns or "__setattr__" in ns or "__init_subclass__" in ns or "__new__" in ns:
         raise Unsupported(f"attribute hooks / __new__ in class {cdef.name}")
-    return UserClass(cdef.name, bases, ns, kind=kind, fields=fields, dc_opts=dc_opts)
+    cls = UserClass(cdef.name, bases, ns, kind=kind, fields=fields, dc_opts=dc_opts)
+    _set_defining_class(ns, cls)
+    return cls
+
+
+def _set_defining_class(ns, cls):
+    """`super()` / `__class__` inside a method refer to the class whose body defines the method."""
+    for v in ns.values():
+        if isinstance(v, _Method):
+            f = v.clo
+            for _ in range(4):  # through the wrappers of cached methods
+                if hasattr(f, "_cg_fdef"):
+                    f._cg_defining_class = cls
+                    break
+                f = getattr(f, "__wrapped__", None) or (f.__closure__[0].cell_contents if getattr(f, "__closure__", None) else None)
+                if f is None or not callable(f):
+                    break
 
 
 def build_builtin_subclass(cdef, interp, base):
